@@ -1,6 +1,7 @@
 """C09 — eval_number keeps integers exact and falls back to doubles only when it must (DESIGN §5 C09).
 Each operator arm is partially evaluated for every (Integer|Float) operand combination; the residual
 decision tree is compared with the reference; plus the cast-guard rule (f64 -> i64 under [-2^63, 2^63))."""
+import re
 from .. import spec, thir as T, chain
 from ..pat import M, parse as P, unify, subterms
 from ..justify import walk_ctx
@@ -180,6 +181,138 @@ def exclusion_ok(cond, x, nan_excluded=False):
     return nan and hi and lo, "; ".join(why)
 
 
+
+def int_pow_table(t):
+    """Integer ^ Integer decided on a decision table instead of on the nesting of the tree: the residual arm is interpreted for
+    representative exponents of every range class the code can distinguish (below i32::MIN, i32::MIN..0, 0..=u32::MAX, above) and
+    for both outcomes of `checked_pow`; the base stays symbolic.  Interpreted fragment: comparisons of the exponent with constants,
+    `u32/i32::try_from(b)` (Ok exactly when b is in the target range), `.ok()`, `and_then`, match with guards.  Returns
+    {class: leaf kind} or None when something outside the fragment is met."""
+    A, B = ("a",), ("b",)
+    reps = {"below-i32": [-2 ** 63, -2 ** 31 - 1], "i32-negative": [-2 ** 31, -1], "u32": [0, 1, 2 ** 32 - 1], "above-u32": [2 ** 32, 2 ** 63 - 1]}
+
+    class Unknown(Exception):
+        pass
+
+    def const(x):
+        e = M(("lit", "?v", "?ty"), x)
+        if e is not None and re.match(r"^-?\d+$", str(e["?v"])):
+            return int(e["?v"])
+        e = M(("cast", "?f", "?t", ("const", "_", "?bits")), x)
+        if e is not None and e["?bits"] is not None:
+            v = int(e["?bits"])
+            bits = {"i32": 32, "i64": 64}.get(e["?f"])
+            if bits and v >= 2 ** (bits - 1):
+                v -= 2 ** bits
+            return v
+        return None
+
+    def run(b, pow_ok):
+        env = {}
+
+        def ival(x):
+            if x == B:
+                return b
+            if isinstance(x, tuple) and len(x) == 2 and x[0] == "var" and isinstance(env.get(x[1]), int):
+                return env[x[1]]
+            if isinstance(x, tuple) and len(x) == 4 and x[0] == "cast" and isinstance(ival_or_none(x[3]), int):
+                v = ival_or_none(x[3])
+                lo, hi = {"u32": (0, 2 ** 32 - 1), "i32": (-2 ** 31, 2 ** 31 - 1), "i64": (-2 ** 63, 2 ** 63 - 1), "usize": (0, 2 ** 64 - 1)}.get(x[2], (None, None))
+                if lo is None or not (lo <= v <= hi):
+                    raise Unknown()          # a truncating cast: outside the fragment (and a defect if reachable)
+                return v
+            c = const(x)
+            if c is None:
+                raise Unknown()
+            return c
+
+        def ival_or_none(x):
+            try:
+                return ival(x)
+            except Unknown:
+                return None
+
+        def cond(c):
+            if isinstance(c, tuple) and c and c[0] == "op" and len(c) == 5:
+                if c[1] in ("and", "or"):
+                    l = cond(c[3])
+                    return (l and cond(c[4])) if c[1] == "and" else (l or cond(c[4]))
+                if c[1] in ("eq", "ne", "lt", "le", "gt", "ge"):
+                    x, y = ival(c[3]), ival(c[4])
+                    return {"eq": x == y, "ne": x != y, "lt": x < y, "le": x <= y, "gt": x > y, "ge": x >= y}[c[1]]
+            if isinstance(c, tuple) and c and c[0] == "un" and c[1] == "not":
+                return not cond(c[-1])
+            if isinstance(c, tuple) and len(c) == 4 and c[0] == "call" and c[1] == "ops::RangeInclusive::contains" and c[2][0] == "rangei":
+                return ival(c[2][1]) <= ival(c[3]) <= ival(c[2][2])
+            raise Unknown()
+
+        def opt(x):
+            """value of an Option/Result-typed term: ("some", v) / ("none",)"""
+            if isinstance(x, tuple) and x:
+                e = M(("call", "?f", B), x)
+                if e is not None and e["?f"] in ("<u32 as convert::TryFrom>::try_from", "<i32 as convert::TryFrom>::try_from"):
+                    lo, hi = (0, 2 ** 32 - 1) if "u32" in e["?f"] else (-2 ** 31, 2 ** 31 - 1)
+                    return ("some", b) if lo <= b <= hi else ("none",)
+                if x[0] == "okopt" and len(x) == 2:
+                    return opt(x[1])
+                if x[0] == "bindopt" and len(x) == 4 and x[2][0] == "bind":
+                    o = opt(x[1])
+                    if o[0] == "none":
+                        return o
+                    env[x[2][1]] = o[1]
+                    return opt(x[3])
+                if x[0] == "call" and x[1] == "i64::checked_pow" and len(x) == 4 and x[2] == A:
+                    ex = ival(x[3])
+                    if ex != b or not (0 <= ex <= 2 ** 32 - 1):
+                        raise Unknown()
+                    return ("some", "POW") if pow_ok else ("none",)
+            raise Unknown()
+
+        def leaf(x):
+            if isinstance(x, tuple) and x and x[0] == "if" and len(x) == 4:
+                return leaf(x[2] if cond(x[1]) else x[3])
+            if isinstance(x, tuple) and x and x[0] == "match" and len(x) > 2:
+                o = opt(x[1])
+                for arm in x[2:]:
+                    p, body = arm[0], arm[-1]
+                    if p == "_":
+                        hit = True
+                    elif isinstance(p, tuple) and p[0] == "pvar" and p[1] in ("Option::Some", "Result::Ok"):
+                        hit = o[0] == "some"
+                        if hit and len(p) == 3 and isinstance(p[2], tuple) and p[2][0] == "bind":
+                            env[p[2][1]] = o[1]
+                    elif isinstance(p, tuple) and p[0] == "pvar" and p[1] in ("Option::None", "Result::Err"):
+                        hit = o[0] == "none"
+                    else:
+                        raise Unknown()
+                    if hit and (len(arm) == 2 or cond(arm[1])):
+                        return leaf(body)
+                raise Unknown()
+            e = M(("Ok", ("I", ("var", "?p"))), x)
+            if e is not None and env.get(e["?p"]) == "POW":
+                return "exact"
+            for nm in ("powf", "powi"):
+                for wrap in ("F", "N"):
+                    e = M(("Ok", (wrap, ("call", "f64::" + nm, ("fa",), "?e"))), x)
+                    if e is not None:
+                        if nm == "powf" and e["?e"] == ("fb",):
+                            return "powf"
+                        if nm == "powi" and ival_or_none(e["?e"]) == b:
+                            return "powi"
+            raise Unknown()
+        return leaf(t)
+    out = {}
+    try:
+        for cls, bs in reps.items():
+            kinds = set()
+            for b in bs:
+                for pow_ok in ((True, False) if cls == "u32" else (True,)):
+                    kinds.add((pow_ok, run(b, pow_ok)) if cls == "u32" else run(b, pow_ok))
+            out[cls] = kinds
+    except (Unknown, KeyError, IndexError, TypeError, ValueError):
+        return None
+    return out
+
 def cast_guard_rule(run, term, wherestr, keyprefix):
     n = [0]
 
@@ -220,12 +353,14 @@ def main(tier):
     m = models["eval_number"]
     W = where(m, "::ast::eval")
 
-    def ob(key, kind, surf, va, vb, pats, rule):
+    def ob(key, kind, surf, va, vb, pats, rule, table=None):
         t, err = residual(m, kind, surf, va, vb)
         if t is None:
             run.ob(False, key, rule, W, "chain broken: %s" % err)
             return
         ok = any(M(p, t) is not None for p in pats)
+        if not ok and table is not None:
+            ok = table(t)
         run.ob(ok, key, rule, "%s (%s %r)" % (W, kind, surf), "residual %s ; expected %s" % (T.show(t)[:300], pats[0][:200]),
                sample={"case": key, "residual": T.show(t)[:160]} if len(run.samples) < 9 else None)
 
@@ -255,7 +390,8 @@ def main(tier):
                                           "(if (op eq f64 (a) (lit 0.0 f64)) (Ok %s) (Ok %s))" % (NV("(lit 0.0 f64)"), NV("(call f64::signum (a))"))], "C09 sgn of a Float")
     POWF = NV("(call f64::powf (fa) (fb))")
     ob("II|^", "bin", "^", INT, INT, ["(if (op ge i64 (b) (lit 0 i64)) (if (op le i64 (b) (cast u32 i64 (const _ 4294967295))) (match (call i64::checked_pow (a) (cast i64 u32 (b))) ((pvar Option::Some (bind ?p)) (Ok (I (var ?p)))) ((pvar Option::None) (Ok %s))) (Ok %s)) _)" % (POWF, POWF)],
-       "C09 Integer ^ Integer exponent in 0..=4294967295: Integer(exact power) when it fits, otherwise the Float power")
+       "C09 Integer ^ Integer exponent in 0..=4294967295: Integer(exact power) when it fits, otherwise the Float power",
+       table=lambda t: (lambda tb: tb is not None and tb["u32"] == {(True, "exact"), (False, "powf")} and tb["above-u32"] == {"powf"} and tb["i32-negative"] <= {"powi", "powf"} and tb["below-i32"] == {"powf"})(int_pow_table(t)))
     ob("IF|^", "bin", "^", INT, FLT, ["(Ok %s)" % NV("(call f64::powf (fa) (b))")], R_FLT)
     ob("FI|^", "bin", "^", FLT, INT, ["(Ok %s)" % NV("(call f64::powf (a) (fb))")], R_FLT)
     ob("FF|^", "bin", "^", FLT, FLT, ["(Ok %s)" % NV("(call f64::powf (a) (b))")], R_FLT)
